@@ -299,7 +299,7 @@ class AliasMod(object):
         return out
 
     def solve(self):
-        funcs = self.P.all_funcs()
+        funcs = self.P.all_funcs(include_new=True)
         for f in funcs:
             self.mod[f.qual] = {}
             self.ret[f.qual] = set()
